@@ -721,8 +721,13 @@ def gen_enum(rng, eid):
                 bits = fixed[1] * 8
                 lo, hi = (-(1 << (bits - 1)), (1 << (bits - 1)) - 1) if fixed[2] else (0, (1 << bits) - 1)
                 v = rng.randint(max(lo, -200), min(hi, 200)) if rng.random() < 0.5 else rng.choice([lo, hi, hi - 1])
-                lit = ("%d" % v if v >= 0 else "(-%d)" % -v, v % I64, 4 if -2**31 <= v <= 2**31 - 1 else 8, True) \
-                    if v <= 2**63 - 1 else ("%dul" % v, v, 8, False)
+                if v == -2**63:
+                    lit = ("(-9223372036854775807L-1)", v % I64, 8, True)
+                elif v <= 2**63 - 1:
+                    # the type of `-N` is the type of N: int if N <= INT_MAX, else long
+                    lit = ("%d" % v if v >= 0 else "(-%d)" % -v, v % I64, 4 if abs(v) <= 2**31 - 1 else 8, True)
+                else:
+                    lit = ("%dul" % v, v, 8, False)
             items.append(lit)
     return (eid, fixed, items)
 
